@@ -217,7 +217,7 @@ class CFG:
             a = n.ast
             if a is None:
                 continue
-            if n.kind == "stmt" and type(a) is ast.Assign and len(a.targets) == 1 and isinstance(a.targets[0], ast.Name):
+            if n.kind == "stmt" and type(a) in (ast.Assign, InlineReturn) and len(a.targets) == 1 and isinstance(a.targets[0], ast.Name):
                 stores.setdefault(a.targets[0].id, {})[n.id] = abstract(a.value)
                 roots = [a.value]
             elif n.kind == "stmt" and type(a) is ast.AnnAssign and isinstance(a.target, ast.Name) and a.value is not None:
